@@ -7,6 +7,10 @@ PLAIN_CONTAINERS = {
     "core::num::nonzero::NonZero",
     "core::marker::PhantomData",
     "alloc::alloc::Global",
+    # owned std containers / plain data (no sharing, no interior mutability, deterministic)
+    "alloc::string::String", "alloc::boxed::Box", "alloc::collections::vec_deque::VecDeque", "alloc::collections::btree::map::BTreeMap",
+    "alloc::collections::btree::set::BTreeSet", "alloc::collections::binary_heap::BinaryHeap", "core::ops::range::Range", "core::ops::range::RangeInclusive",
+    "core::cmp::Ordering", "core::time::Duration", "core::result::Result", "core::ops::control_flow::ControlFlow", "alloc::borrow::Cow",
 }
 
 
